@@ -290,7 +290,8 @@ def run_unit(unit, tier='quick', tag='main', solver=None):
         # trusted-base scan against the allow-list
         trusted = trusted_scan(text)
         allow = load_allow()
-        unknown = [t for t in trusted if t not in allow and not (t.startswith('external_body fn ') and t.split()[-1] in force)]
+        forced_names = set(force) | set(info[f].get('src_name') for f in force if f in info)
+        unknown = [t for t in trusted if t not in allow and not (t.startswith('external_body fn ') and t.split()[-1] in forced_names)]
         if unknown:
             raise Undecided('unit %s: trusted items not in contracts/trusted.allow: %s' % (unit, unknown))
 
